@@ -294,8 +294,69 @@ def run(ck):
             bad.append(("apply-vs-propagate", float(numpy.abs(direct - via).max())))
         if numpy.abs(jd - Um).max() > 1e-9 * sc:
             bad.append(("jit-vs-all", float(numpy.abs(jd - Um).max())))
+        # the internal steps are D(h) T_4(G h) (D: the dephasing factors of one step, T_4: fourth-order expansion): over one interval of the
+        # axis they differ from the untruncated steps D(h) exp(G h) only within the truncation bound of the expansion, at every refinement
+        try:
+            Lv = SY.gksl_superop(numpy, H, Ks, rates)
+            for Ndr in (Nd, 2 * Nd):
+                if Ndr != Nd:
+                    Ur = EvolutionSuperOperator(time, ham, LF, pdeph=pd_); Ur.set_dense_dt(Ndr); Ur.calculate()
+                    U1 = numpy.array(Ur.data).reshape(Nt, nn, nn)[1]
+                else:
+                    U1 = Um[1]
+                hh_ = step / Ndr
+                DE = numpy.diag(numpy.exp(-gpd * hh_).reshape(nn)) @ scipy.linalg.expm(Lv * hh_)
+                ref_ = numpy.linalg.matrix_power(DE, Ndr)
+                x_ = float(numpy.linalg.norm(Lv * hh_, 2))
+                b_ = SY.trunc_bound(x_, 4, Ndr) + 1e-10
+                dev_ = float(numpy.linalg.norm(U1 - ref_, 2))
+                ck.resid("pure dephasing: U(step) vs untruncated internal steps / bound", dev_ / b_)
+                if dev_ > b_:
+                    ck.fail("pure-dephasing:refine", "with an additional pure-dephasing object: U over one interval differs from the untruncated internal steps "
+                            "[D(h) exp(G h)]^N by more than the truncation bound of the fourth-order expansion", dict(inp, Ndense_used=Ndr), dev_, b_)
+                    break
+        except Exception as e:
+            ck.fail("raises:pure-dephasing:refine", "refinement check with a pure-dephasing object raised %r" % (e,), inp)
         for k_, v_ in bad:
             ck.fail("pure-dephasing:" + k_, "with an additional pure-dephasing object: %s clause fails" % k_, inp, v_)
+    # ---- Hamiltonians with rotating-wave blocks: U and the directly propagated state, both in the rotating frame and after both were
+    # converted to the laboratory frame (a conversion requested again, or requested for an object that never was in the frame, does nothing)
+    for h in range(ck.n(2, 10)):
+        n = 3
+        Hd = numpy.array([[0.0, 0.0, 0.0], [0.0, 2.0 + rng.randint(0, 4) / 64.0, rng.randint(1, 4) / 64.0], [0.0, 0.0, 2.0 + rng.randint(5, 9) / 64.0]])
+        Hd[2, 1] = Hd[1, 2]
+        as_ops = (h % 2 == 1)
+        Nd = rng.choice([2, 4, 8])
+        inp = {"H": Hd.tolist(), "rwa_indices": [0, 1], "generator_as_operators": as_ops, "Ndense": Nd, "axis": [0.0, 6, 4.0]}
+        ck.case(("rwa", h, as_ops, Nd), nontrivial=True, kind="all", Ndense=Nd, Nt=6, dim=n)
+        try:
+            ham = Hamiltonian(data=Hd.copy()); ham.set_rwa([0, 1])
+            K1 = Operator(dim=n, real=True); K1.data[1, 2] = 1.0
+            K2 = Operator(dim=n, real=True); K2.data[0, 1] = 1.0
+            LFr = LindbladForm(ham, SystemBathInteraction([K1, K2], rates=(1.0 / 50.0, 1.0 / 300.0)), as_operators=as_ops)
+            timer = TimeAxis(0.0, 6, 4.0)
+            Ur = EvolutionSuperOperator(timer, ham, LFr); Ur.set_dense_dt(Nd); Ur.calculate()
+            pr_ = ReducedDensityMatrixPropagator(timer, ham, RTensor=LFr); pr_.setDtRefinement(Nd)
+            r0r, _ = SY.rand_state(numpy, rng, n)
+            rt_ = pr_.propagate(ReducedDensityMatrix(data=r0r.copy()))
+
+            def dev_now():
+                return max(float(numpy.abs(numpy.array(Ur.apply(float(timer.data[k_]), ReducedDensityMatrix(data=r0r.copy())).data) - numpy.array(rt_.data[k_])).max())
+                           for k_ in range(timer.length))
+            stages = [("rotating frame", dev_now())]
+            Ur.convert_from_RWA(); rt_.convert_from_RWA(ham)
+            stages.append(("laboratory frame", dev_now()))
+            Ulab = numpy.array(Ur.data).copy()
+            Ur.convert_from_RWA(); rt_.convert_from_RWA(ham)
+            stages.append(("laboratory frame requested again", max(dev_now(), float(numpy.abs(numpy.array(Ur.data) - Ulab).max()))))
+            for nm_, d_ in stages:
+                ck.resid("RWA: U applied vs direct propagation (%s)" % nm_, d_)
+                if d_ > 1e-9:
+                    ck.fail("apply-vs-propagate:rwa", "Hamiltonian with rotating-wave blocks, %s: U applied to a state differs from the direct propagation of that "
+                            "state" % nm_, dict(inp, stage=nm_), d_)
+                    break
+        except Exception as e:
+            ck.fail("raises:rwa", "evolution superoperator / propagation with rotating-wave blocks raised %r" % (e,), inp)
     model = ck.drive(DRIVER, lines)
     if model is not None:
         for l, a, b, t in zip(lines, impl, model, tol):
